@@ -389,6 +389,7 @@ def _worker(seeds):
 
 def run(tier, seed):
     c = vlib.Check("C11", tier, seed, "proof")
+    vlib.pure_python_parser()
     c.prove("C11.v")
     base = seed * 1000003
     nm, no = (40000, 15000) if tier == "quick" else (600000, 200000)
